@@ -1,0 +1,93 @@
+#pragma once
+
+// Stack depth guard for the recursive parts of the interpreter.
+//
+// The parser, the type inference and the evaluator are recursive: every Cb
+// call level, every nested statement and every term of a long operator chain
+// costs C++ stack frames. main() runs the interpreter on a thread with a large,
+// explicitly sized stack and calls StackGuard::enable(); the recursion entry
+// points call StackGuard::check(), which compares the distance between the
+// current frame and the frame recorded by enable() with the stack size minus a
+// safety margin and throws std::runtime_error when that budget is exceeded. A
+// program that recurses too deeply therefore ends with a diagnostic and exit
+// status 1 instead of SIGSEGV, whatever the frame sizes of the build
+// (optimised, debug, sanitizer) are.
+//
+// Without enable() (unit tests and other embedders that call the interpreter
+// on a stack of unknown size) the guard is disabled and check() does nothing.
+
+#include <cstddef>
+#include <cstdint>
+#include <stdexcept>
+
+#if defined(__SANITIZE_ADDRESS__)
+#define CB_STACK_GUARD_ASAN 1
+#elif defined(__has_feature)
+#if __has_feature(address_sanitizer)
+#define CB_STACK_GUARD_ASAN 1
+#endif
+#endif
+
+namespace StackGuard {
+
+struct State {
+    uintptr_t base = 0; // address of a frame near the start of the stack
+    size_t budget = 0;  // usable depth in bytes; 0 = guard disabled
+};
+
+inline State g_state; // one interpreter thread: no synchronisation needed
+
+// Address inside the current stack frame. The frame address is preferred to
+// the address of a local variable because sanitizer builds may move locals to
+// a "fake stack" on the heap.
+inline uintptr_t current_frame() {
+#if defined(__GNUC__) || defined(__clang__)
+    return reinterpret_cast<uintptr_t>(__builtin_frame_address(0));
+#else
+    volatile char probe = 0;
+    return reinterpret_cast<uintptr_t>(&probe);
+#endif
+}
+
+// To be called once, near the start of a stack of (at least) stack_size bytes.
+// The margin (1/8 of the stack, at least 1 MiB) is kept free for the frames
+// between two guarded entry points, for exception unwinding and for the
+// diagnostics. A stack too small to leave anything beside the margin disables
+// the guard.
+inline void enable(size_t stack_size) {
+    const size_t min_margin = static_cast<size_t>(1) << 20;
+    size_t margin = stack_size / 8;
+    if (margin < min_margin) {
+        margin = min_margin;
+    }
+    State &s = g_state;
+    s.base = current_frame();
+    s.budget = stack_size > 2 * margin ? stack_size - margin : 0;
+#ifdef CB_STACK_GUARD_ASAN
+    // AddressSanitizer unpoisons the used part of the stack whenever an
+    // exception is thrown (the interpreter implements `return` with one) and
+    // gives up, with false reports, beyond 64 MiB (__asan_handle_no_return)
+    const size_t asan_budget = static_cast<size_t>(48) << 20;
+    if (s.budget > asan_budget) {
+        s.budget = asan_budget;
+    }
+#endif
+}
+
+// To be called at the entry of every function that takes part in an unbounded
+// recursion.
+inline void check() {
+    const State &s = g_state;
+    if (s.budget == 0) {
+        return;
+    }
+    uintptr_t here = current_frame();
+    // works for stacks growing in either direction
+    size_t used = here < s.base ? s.base - here : here - s.base;
+    if (used > s.budget) {
+        throw std::runtime_error(
+            "Stack overflow: call depth or expression nesting too deep");
+    }
+}
+
+} // namespace StackGuard
